@@ -19,11 +19,11 @@ Proof. exact ports_partition_inv. Qed.
 Print Assumptions C09_ports_partition_inv.
 
 (* a granted port is allowed, was free, was owned by nobody, is bindable, is the requested one when one
-   was requested, and is now recorded for the requester; [used ports are bound, hence not bindable] is
-   the OS fact the layered model derives *)
+   was requested, and is now recorded for the requester — for every value of the probe and choice oracles
+   (no assumption about the OS: every granting branch, the reserved-port path included, goes through the
+   manager's own free table) *)
 Theorem C09_acquire_sound : forall A probe ch s n port s' p,
   PInv A s ->
-  (forall q, used_by s q -> probe q = false) ->
   pm_acquire probe ch s n port = Some (s', POk p) ->
   In p A /\ In p (pm_free s) /\ ~ used_by s p /\ probe p = true /\
   (port <> 0 -> p = port) /\
@@ -31,28 +31,41 @@ Theorem C09_acquire_sound : forall A probe ch s n port s' p,
 Proof. exact acquire_sound. Qed.
 Print Assumptions C09_acquire_sound.
 
-(* without that OS fact the clause is false: the reserved-port path consults only the probe, never the
-   free table, and hands a port owned by "b" to "a" *)
-Theorem C09_acquire_exclusive_any_probe_refuted :
+(* exclusivity over every history and every oracle: the granted port had no owner and no other owner
+   is touched *)
+Theorem C09_acquire_exclusive : forall ranges ops s probe ch n port s' p,
+  pm_run ops (pm_new ranges) = Some s ->
+  pm_acquire probe ch s n port = Some (s', POk p) ->
+  uget p (pm_used s) = None /\ (forall q, q <> p -> uget q (pm_used s') = uget q (pm_used s)).
+Proof. exact acquire_exclusive. Qed.
+Print Assumptions C09_acquire_exclusive.
+
+(* regression of the repaired reserved-path defect: with every probe succeeding, "a" (whose remembered
+   port 10 now belongs to "b") is given another port and "b" keeps 10 *)
+Theorem C09_reserved_path_no_steal :
   exists s s', pm_run steal_ops (pm_new [(10, 12, 0)]) = Some s /\
     uget 10 (pm_used s) = Some "b"%string /\
-    pm_acquire (fun _ => true) None s "a"%string 0 = Some (s', POk 10) /\
-    uget 10 (pm_used s') = Some "a"%string.
-Proof. exact acquire_exclusive_any_probe_refuted. Qed.
-Print Assumptions C09_acquire_exclusive_any_probe_refuted.
+    pm_acquire (fun _ => true) (Some 11) s "a"%string 0 = Some (s', POk 11) /\
+    uget 10 (pm_used s') = Some "b"%string.
+Proof. exact reserved_path_no_steal. Qed.
+Print Assumptions C09_reserved_path_no_steal.
 
-(* a refused request changes nothing (partial: port 0 must not be an allowed port) *)
-Theorem C09_acquire_error_unchanged_partial : forall probe ch s n port s' e,
-  ~ In 0 (pm_free s) ->
+(* a refused request changes nothing: every allowPorts configuration, every history, every oracle *)
+Theorem C09_acquire_error_unchanged : forall ranges ops s probe ch n port s' e,
+  pm_run ops (pm_new ranges) = Some s ->
   pm_acquire probe ch s n port = Some (s', PErr e) -> s' = s.
 Proof. exact acquire_error_unchanged. Qed.
-Print Assumptions C09_acquire_error_unchanged_partial.
+Print Assumptions C09_acquire_error_unchanged.
 
-Theorem C09_acquire_error_unchanged_port0_refuted :
-  exists s', pm_acquire (probe_of []) (Some 0) (pm_new [(0, 2, 0)]) "a"%string 0 = Some (s', PErr ENoAvail) /\
-             uget 0 (pm_used s') = Some "a"%string /\ ~ In 0 (pm_free s').
-Proof. exact acquire_error_unchanged_port0_refuted. Qed.
-Print Assumptions C09_acquire_error_unchanged_port0_refuted.
+(* NewManager keeps only bindable ports, whatever allowPorts says (0, negative, > 65535 are dropped) *)
+Theorem C09_allowed_ports_are_valid : forall ranges p, In p (pm_allowed ranges) -> 1 <= p <= 65535.
+Proof. exact allowed_valid. Qed.
+Print Assumptions C09_allowed_ports_are_valid.
+
+Theorem C09_port0_never_free :
+  pm_free (pm_new [(0, 2, 0)]) = [1; 2] /\ pm_free (pm_new [(0, 0, 0); (0, 0, 70000); (65534, 70000, 0); (-5, 1, 0)]) = [65534; 65535; 1].
+Proof. exact port0_never_free. Qed.
+Print Assumptions C09_port0_never_free.
 
 (* 0 means "server-chosen"; any other port outside the allowed set is refused as not allowed ... *)
 Theorem C09_out_of_range_refused : forall A probe ch s n port,
@@ -102,9 +115,9 @@ Theorem C09_released_port_available_again : forall A s p probe ch n,
 Proof. exact released_port_available_again. Qed.
 Print Assumptions C09_released_port_available_again.
 
-(* server-chosen port: the previous port comes back whenever the OS still lets it be bound *)
+(* server-chosen port: the previous port comes back whenever it is still free and the OS lets it be bound *)
 Theorem C09_reacquire_same_port : forall probe ch s n rp,
-  rget n (pm_res s) = Some rp -> probe rp = true ->
+  rget n (pm_res s) = Some rp -> In rp (pm_free s) -> probe rp = true ->
   pm_acquire probe ch s n 0 = Some (pm_take s n rp, POk rp).
 Proof. exact reacquire_same_port. Qed.
 Print Assumptions C09_reacquire_same_port.
@@ -112,23 +125,22 @@ Print Assumptions C09_reacquire_same_port.
 Theorem C09_same_port_back : forall A probe0 ch0 s0 n port0 s1 p ops s2 probe ch,
   PInv A s0 ->
   pm_acquire probe0 ch0 s0 n port0 = Some (s1, POk p) ->
-  (forall q, used_by s0 q -> probe0 q = false) ->
   pm_run ops s1 = Some s2 -> forallb (fun o => negb (touches_name n o)) ops = true ->
-  probe p = true ->
+  In p (pm_free s2) -> probe p = true ->
   pm_acquire probe ch s2 n 0 = Some (pm_take s2 n p, POk p).
 Proof. exact same_port_back. Qed.
 Print Assumptions C09_same_port_back.
 
 (* ---- the layered model: proxies, groups, sessions, os_bound (Model/PortSrv.v) ---- *)
 
-(* for every allowPorts set without port 0, every quota, every history of logins, registrations
+(* for every allowPorts set, every quota, every history of logins, registrations
    (succeeding, refused at any point, duplicate names, grouped or not, failing listens), closes, session
    ends, late second closes of udp proxies and squatter activity, and every oracle value: what the server
    has bound is allowed (bound_subset_allowed), no (protocol, port) is bound twice, each manager's used
    table is exactly what is bound for its protocol (accounting_equals_bound), hence the OS probe fails on
-   every used port — the fact C09_acquire_sound assumes *)
+   every used port *)
 Theorem C09_layered_accounting : forall maxp ranges ops s,
-  ~ In 0 (pm_allowed ranges) -> y_run maxp ops (srv_new ranges) = Some s ->
+  y_run maxp ops (srv_new ranges) = Some s ->
   let r := s_rc s in
   (forall p, In (0, p) (rc_bound r) \/ In (1, p) (rc_bound r) -> In p (pm_allowed ranges)) /\
   NoDup (rc_bound r) /\
@@ -150,8 +162,8 @@ Theorem C09_reported_addr_is_bound_addr : forall r q r' id real,
 Proof. exact reported_addr_is_bound_addr. Qed.
 Print Assumptions C09_reported_addr_is_bound_addr.
 
-Theorem C09_failed_registration_returns_ports : forall A r q r' e,
-  ~ In 0 A -> XInv A r -> px_run r q = Some (r', XErr e) ->
+Theorem C09_failed_registration_returns_ports : forall ranges r q r' e,
+  XInv (pm_allowed ranges) r -> px_run r q = Some (r', XErr e) ->
   rc_bound r' = rc_bound r /\
   (forall p, used_by (rc_tcp r') p <-> used_by (rc_tcp r) p) /\
   (forall p, In p (pm_free (rc_tcp r')) <-> In p (pm_free (rc_tcp r))) /\
@@ -162,7 +174,7 @@ Print Assumptions C09_failed_registration_returns_ports.
 
 (* XInv is what every reachable state satisfies *)
 Theorem C09_reachable_states_satisfy_XInv : forall maxp ranges ops s,
-  ~ In 0 (pm_allowed ranges) -> y_run maxp ops (srv_new ranges) = Some s -> XInv (pm_allowed ranges) (s_rc s).
+  y_run maxp ops (srv_new ranges) = Some s -> XInv (pm_allowed ranges) (s_rc s).
 Proof. exact xinv_reach. Qed.
 Print Assumptions C09_reachable_states_satisfy_XInv.
 
@@ -213,6 +225,33 @@ Theorem C09_name_has_one_owner : forall maxp ranges ops s c1 c2 ct1 ct2 n v1 v2,
   sget n (c_proxies ct1) = Some v1 -> sget n (c_proxies ct2) = Some v2 -> c1 = c2.
 Proof. exact name_has_one_owner. Qed.
 Print Assumptions C09_name_has_one_owner.
+
+(* a registration refused for a duplicate name or for the quota runs nothing: no manager table (in
+   particular nobody's remembered port), binding, group or proxy object changes *)
+Theorem C09_refused_duplicate_disturbs_nothing : forall maxp s c q s',
+  (y_register maxp s c q = Some (s', YErrExists) \/ y_register maxp s c q = Some (s', YErrQuota)) ->
+  s_rc s' = s_rc s /\ s_names s' = s_names s.
+Proof. exact refused_duplicate_disturbs_nothing. Qed.
+Print Assumptions C09_refused_duplicate_disturbs_nothing.
+
+Theorem C09_duplicate_then_same_port_back : forall maxp s c q s1,
+  y_register maxp s c q = Some (s1, YErrExists) ->
+  forall n, rget n (pm_res (rc_tcp (s_rc s1))) = rget n (pm_res (rc_tcp (s_rc s))) /\
+            rget n (pm_res (rc_udp (s_rc s1))) = rget n (pm_res (rc_udp (s_rc s))).
+Proof. exact duplicate_then_same_port_back. Qed.
+Print Assumptions C09_duplicate_then_same_port_back.
+
+(* the number of distinct public ports a session holds (plain, udp or grouped) never exceeds the quota;
+   a grouped tcp proxy is charged like any other *)
+Theorem C09_ports_held_within_quota : forall maxp ranges ops s c ct,
+  0 < maxp -> y_run maxp ops (srv_new ranges) = Some s -> aget c (s_ctls s) = Some ct ->
+  Z.of_nat (length (held_ports (rc_objs (s_rc s)) (c_proxies ct))) <= maxp.
+Proof. exact ports_held_within_quota. Qed.
+Print Assumptions C09_ports_held_within_quota.
+
+Theorem C09_grouped_proxy_weighs_one : forall q, xq_kind q = KTcp -> pweight (xq_kind q) = 1.
+Proof. exact grouped_proxy_weighs_one. Qed.
+Print Assumptions C09_grouped_proxy_weighs_one.
 
 (* a reachable, non-trivial history: two sessions, quota 1, a grouped proxy with a server-chosen port, a
    refused over-quota registration, a failing listen, a close and a late second close *)
